@@ -7,6 +7,10 @@ pub(crate) fn repr_round_ref<const B: Word>(&self, repr: &Repr<B>) -> Rounded<Re
         // exponent range: the new exponent must be representable (overflow of isize is outside this contract)
         repr.exponent as int + ndigits(B as int, repr.significand.v()) <= isize::MAX,
         ndigits(B as int, repr.significand.v()) <= isize::MAX,
+        // resource limit: exponent overflow is a documented panic (C16), not modelled: the digit position of the split
+        // (digits - precision) must have a bit position within usize (utils.rs `pos * log2(B)`); the exponent bound
+        // above is exactly the room `Repr::new` needs in the carry case (rounded significand == B^precision)
+        pos_room(ndigits(B as int, repr.significand.v()) as int),
     ensures
         round_once(R::md(), B as int, self.precision, repr.significand.v(), repr.exponent as int, ret),
 @*/
@@ -38,6 +42,7 @@ pub(crate) fn repr_round_ref<const B: Word>(&self, repr: &Repr<B>) -> Rounded<Re
                 assert((shift as isize) as int == shift as int);
                 assert(shift as nat == (ndigits(B as int, repr.significand.v()) - self.precision) as nat);
                 assert(iabs(signif_hi.v() + adj_int(adjust)) <= ipow(B as int, self.precision as nat));
+                lemma_round_exp_room(B as int, signif_hi.v() + adj_int(adjust), self.precision as nat, repr.exponent as int, digits as nat);
             } @*/
             Inexact(Repr::new(signif_hi + adjust, repr.exponent + shift as isize), adjust)
         } else {
